@@ -12,6 +12,7 @@ from ..engine import cfg as C
 from ..engine import grammar as G
 from ..engine import paths as PA
 from ..engine import q as Q
+from ..engine import tables as TB
 from ..engine import terms as T
 from ..engine.facts import AnchorMissing, callee_of
 
@@ -215,6 +216,19 @@ def rule_R1_header(ctx):
         for e in PA.write_events(db, tr, P):
             if e[0] == "lit":
                 dl.add(e[1])
+    # per-path skeletons: every combination of (optional?, value?) must be printable, nothing else
+    skels = set()
+    for tr in trails:
+        sk = ""
+        for e in PA.write_events(db, tr, P):
+            sk += e[1] if e[0] == "lit" else "H"
+        skels.add(sk)
+    want_sk = {"H", "?H", "H=[H]", "?H=[H]"}
+    stray = sorted(x for x in skels if x not in want_sk and not any(w.startswith(x) for w in want_sk))
+    missing = sorted(want_sk - skels)
+    ctx.check(not missing and not stray, "R1", "Header:skeletons", "Display writes [?]name[=[value]] for all four (optional, value) combinations",
+              "Header Display cannot print %s%s: a header carrying both marks loses one of them, so text -> value -> text is not the identity (p0f.fp contains e.g. `?DNT=[1]`)"
+              % (missing, (" and prints unexpected forms %s" % stray) if stray else ""), ctx.loc(db))
     want_disp = {"?", "=[", "]"}
     ctx.check(opt_q and {"=[", "]"} <= plits and want_disp <= dl, "R1", "Header:marks",
               "`?` optional mark and `=[value]` on both sides (parser lits %s, display lits %s)" % (sorted(plits), sorted(dl)),
@@ -277,16 +291,40 @@ def rule_R4(ctx):
     i, j, s = aggs[0]
     fields = s["r"]["fields"]
     field_local = {}
+    aliases = {}
     for fname, o in zip(fields, s["r"]["ops"]):
         t = S.operand(o, i, j)
-        root = _root_named_local(b, S, t)
+        pl = o.get("m") or o.get("c")
+        rl = TB._root_local(b, pl["l"]) if pl is not None and not pl["pr"] else None
+        if rl is not None and b.local_name(rl):
+            root = rl
+        else:
+            root = _root_named_local(b, S, t)
         field_local[fname] = root
+        alias = _root_named_local(b, S, t)
+        if alias is not None:
+            aliases[alias] = fname
     want = {"tcp_request": ("tcp", "request"), "tcp_response": ("tcp", "response"),
             "http_request": ("http", "request"), "http_response": ("http", "response")}
     for f in list(want) + ["mtu", "classes", "ua_os"]:
         if field_local.get(f) is None:
             ctx.cannot("R4", "field:" + f, "source local of Database.%s not identified" % f, ctx.loc(b, i))
-    loc2field = {v: k for k, v in field_local.items() if v is not None}
+    loc2field = dict(aliases)
+    loc2field.update({v: k for k, v in field_local.items() if v is not None})
+    # accumulation: the locals that become Database fields are initialised once, before the line loop, and only grown in place
+    lps = C.loops(b)
+    inloop = set()
+    for blks in lps.values():
+        inloop |= set(blks)
+    for f in ("classes", "mtu", "ua_os"):
+        l = field_local.get(f)
+        if l is None:
+            continue
+        defs = [(db_, dj_) for (db_, dj_, full) in S.defs().get(l, []) if full]
+        re_assigned = [d for d in defs if d[0] in inloop]
+        ctx.check(len(defs) >= 1 and not re_assigned, "R4", "accumulate:" + f, "Database.%s is initialised once and only appended to while lines are read" % f,
+                  "the value that becomes Database.%s is re-assigned for every matching line: of several `%s` lines only the last survives, the earlier ones are silently dropped"
+                  % (f, "classes =" if f == "classes" else f), ctx.loc(b, re_assigned[0][0]) if re_assigned else ctx.loc(b))
     # pushes
     pushes = Q.calls(b, "Vec::<T, A>::push")
     seen = {}
@@ -294,11 +332,24 @@ def rule_R4(ctx):
         args = Q.call_args(b, S, blk, t)
         recv = args[0]
         tgt = _root_named_local(b, S, recv)
+        rp = t["args"][0].get("m") or t["args"][0].get("c")
+        if rp is not None and not rp["pr"]:
+            rl = TB._root_local(b, rp["l"])
+            if b.local_name(rl) and rl in loc2field:
+                tgt = rl
         via_last = T.has_call(recv, "last_mut")
         if via_last:
             # receiver is `values` bound from <vec>.last_mut(): find the vector
             lm = [c for c in T.calls_in(recv) if "last_mut" in c[1]]
             tgt = _root_named_local(b, S, lm[0][2][0]) if lm else None
+            if lm:
+                # the vector last_mut() was called on, by local identity
+                lt = b.blocks[lm[0][3]]["t"]
+                lp = lt["args"][0].get("m") or lt["args"][0].get("c")
+                if lp is not None and not lp["pr"]:
+                    rl = TB._root_local(b, lp["l"])
+                    if b.local_name(rl) and rl in loc2field:
+                        tgt = rl
         fld = loc2field.get(tgt)
         if fld is None:
             continue
